@@ -71,6 +71,11 @@ SCRIPTS = [
     {'name': 'inputs', 'code': PRE + 'set_input(["4", "5"])\nstudent = run()\nassert_output(student, "9")\nqueue_input("7")\n'},
     {'name': 'scores', 'code': PRE + 'give_partial(0.25)\ncompliment("good start", score="+10%")\ngently("not yet", label="n1", score="-5%")\n'},
     {'name': 'correct', 'code': PRE + 'set_correct()\n'},
+    # a script that defines a helper of its own, and one that would pick such a helper up if the scripts shared a namespace
+    {'name': 'defines-helper', 'code': PRE + 'def helper_only_here():\n    return "text from the helper"\nSHARED_FLAG = "set by defines-helper"\n'
+     'gently(helper_only_here(), label="h1")\n'},
+    {'name': 'uses-foreign-helper', 'code': PRE + 'try:\n    text = helper_only_here()\nexcept NameError:\n    text = "no helper in my namespace"\n'
+     'try:\n    text += " / " + SHARED_FLAG\nexcept NameError:\n    text += " / no flag"\ngently(text, label="h2")\n'},
     # the script resets the report itself (which also detaches the submission) and carries on
     {'name': 'clear-report', 'code': PRE + 'explain("before the reset", label="r0")\nclear_report()\nsuppress("runtime")\n'
      'gently("after the reset", label="r1", score="+15%")\n'},
@@ -114,7 +119,8 @@ SUBMISSIONS = [
     {'name': 'func-attr-use', 'files': {'answer.py': 'def add(a, b):\n    return a + b\ndef other():\n    return 1\nprint(add(1, 2))\nprint(other.calls + 1)\n'}},
     {'name': 'unused', 'files': {'answer.py': 'def add(a, b):\n    return a + b\nleftover = 5\nfor i in [1, 2]:\n    print(i + 5)\nprint(1)\n'}},
 ]
-ALWAYS = [(('clear-report', 'add-ok'), ('plain', 'runtime')), (('clear-report', 'runtime'), ('clear-report', 'runtime'), ('correct', 'add-ok')),
+ALWAYS = [(('defines-helper', 'add-ok'), ('uses-foreign-helper', 'add-ok')), (('defines-helper', 'add-wrong'), ('plain', 'add-ok'), ('uses-foreign-helper', 'runtime')),
+          (('clear-report', 'add-ok'), ('plain', 'runtime')), (('clear-report', 'runtime'), ('clear-report', 'runtime'), ('correct', 'add-ok')),
           (('pools-subclass', 'add-ok'), ('pools-c', 'add-ok')), (('pools-subclass', 'add-ok'), ('pools-d', 'add-ok')),
           (('pools', 'add-ok'), ('pools-c', 'add-ok')), (('pools-subclass', 'add-wrong'), ('pools-b', 'add-ok')),
           (('tifa-settings', 'boolop'), ('plain', 'boolop')), (('tifa-settings', 'add-ok'), ('static+tifa', 'boolop')),
